@@ -92,6 +92,8 @@ type vsScript struct {
 		FrameMs int `json:"frame_ms"`
 	} `json:"throttle"`
 	Steps []vDetStep `json:"steps"`
+	// Windowed: the processor gets a recording window and steps may be marked `closed`
+	Windowed bool `json:"windowed"`
 	// Kind "history": a second processor is fed pix2 in lock-step (streams equal from some FFC period / reset on)
 	Kind string `json:"kind"`
 }
@@ -129,9 +131,19 @@ func TestVerifStartArgs(t *testing.T) {
 		mconf := config.ThermalMotion{TempThresh: uint16(c.T), DeltaThresh: uint16(c.Delta), CountThresh: c.Cnt,
 			FrameCompareGap: c.Gap, UseOneDiffOnly: c.One, WarmerOnly: c.Warmer, EdgePixels: c.Edge,
 			DynamicThreshold: c.Dyn, TempThreshMin: uint16(c.Tmin), TempThreshMax: uint16(c.Tmax), TriggerFrames: sc.Trig}
-		w, _ := window.New("12:00", "12:00", 0, 0)
-		rconf := &recorder.RecorderConfig{MinSecs: sc.MinSecs, MaxSecs: sc.MaxSecs, PreviewSecs: sc.PrevSecs, Window: *w}
 		var cur *vDetStep
+		w, _ := window.New("12:00", "12:00", 0, 0)
+		if sc.Windowed {
+			// a real recording window; the script says for each frame whether it arrives inside or outside it
+			w, _ = window.New("10:00", "14:00", 0, 0)
+			w.Now = func() time.Time {
+				if cur != nil && cur.Closed {
+					return time.Date(2020, 1, 15, 16, 0, 0, 0, time.Local)
+				}
+				return time.Date(2020, 1, 15, 12, 0, 0, 0, time.Local)
+			}
+		}
+		rconf := &recorder.RecorderConfig{MinSecs: sc.MinSecs, MaxSecs: sc.MaxSecs, PreviewSecs: sc.PrevSecs, Window: *w}
 		mkParser := func(second bool) func(raw []byte, out *cptvframe.Frame, edge int) error {
 			return func(raw []byte, out *cptvframe.Frame, edge int) error {
 				if cur == nil {
